@@ -219,7 +219,7 @@ func runCheck(cfg checkCfg) int {
 	assumed := map[string]bool{}
 	notes := map[string]bool{}
 	exit := 0
-	os.MkdirAll(filepath.Join(verifDir, "replays"), 0o755)
+	os.MkdirAll(filepath.Join(outDir(), "replays"), 0o755)
 	newBase := map[string]BaselineEntry{}
 	for _, r := range runs {
 		funcs = append(funcs, r.vc.Label)
@@ -369,9 +369,9 @@ func runCheck(cfg checkCfg) int {
 		},
 		"assumptions": trusted,
 	}
-	os.MkdirAll(filepath.Join(verifDir, "evidence"), 0o755)
+	os.MkdirAll(filepath.Join(outDir(), "evidence"), 0o755)
 	b, _ := json.MarshalIndent(ev, "", " ")
-	os.WriteFile(filepath.Join(verifDir, "evidence", cfg.prop+".json"), b, 0o644)
+	os.WriteFile(filepath.Join(outDir(), "evidence", cfg.prop+".json"), b, 0o644)
 	if cfg.writeBase {
 		for k, v := range newBase {
 			baseline.Obligations[k] = v
@@ -383,6 +383,14 @@ func runCheck(cfg checkCfg) int {
 	fmt.Printf("property %s: %d/%d obligations discharged over %d functions (%d known findings, %d undecided-new) in %.1fs\n",
 		cfg.prop, nDis, nObl, len(funcs), len(knownHits), len(undecided), time.Since(start).Seconds())
 	return exit
+}
+
+// outDir is where evidence and replay files go: /verif, or $CEDAR_OUT for selftest runs on scratch trees.
+func outDir() string {
+	if d := os.Getenv("CEDAR_OUT"); d != "" {
+		return d
+	}
+	return verifDir
 }
 
 func isSafetyKind(k string) bool {
@@ -411,7 +419,7 @@ func relFiles(fs []string) []string {
 }
 
 func writeReplay(prop string, o *Obl, res *OblResult) string {
-	path := filepath.Join(verifDir, "replays", prop+"-"+sanitize(o.Name)+".json")
+	path := filepath.Join(outDir(), "replays", prop+"-"+sanitize(o.Name)+".json")
 	rp := map[string]any{
 		"property":   prop,
 		"obligation": o.Name,
